@@ -85,6 +85,11 @@ def episode_for(project, rng, n_entries, with_pairs=True):
         sg = ep.scan(excl={"kind": "glob", "patterns": [sc.entry_path(a) + "*"]})
         ep.law("excl", [s0, sl])
         ep.law("same", [sl, sg])
+    # exclusion x externals included: an excluded module that a remaining file imports must stay away (no module, no
+    # import), whatever the external option says
+    for e in entries[:3]:
+        sh = sc.glob_shapes(project, e, rng)[rng.choice(["*/text", "*text", "text"])]
+        ep.scan(ext=True, excl={"kind": "glob", "patterns": [sh]})
     subs = [d for d in project["dirs"] if len(d) > 1]
     if subs:      # exclusions under a module_path below the root
         d = rng.choice(subs)
